@@ -115,6 +115,13 @@ def run_property(mod, tier: str, seed: int, shrink_budget=80, max_report=24) -> 
         common.log("driver failed to build:\n" + run.lean.build_log[-3000:])
         run.lean.obligations.append({"name": "driver-build", "file": "lean/Driver.lean", "status": "failed", "axioms": None})
         return run.finish() or 2
+    if run.lean.failed and hasattr(mod, "static_findings"):
+        try:
+            run.extra["static_findings"] = mod.static_findings()
+            for f in run.extra["static_findings"][:10]:
+                common.log(f"static finding: {f['entry']} can write {f['mode']} through {f['root']!r}: " + " ; ".join(f["chain"]))
+        except Exception as e:  # noqa
+            run.extra["static_findings"] = f"error: {e!r}"
     nshards = common.n_workers(tier)
     if getattr(mod, "MAX_WORKERS", None):
         nshards = min(nshards, mod.MAX_WORKERS)
